@@ -14,8 +14,10 @@ FILES = sorted(glob.glob(os.path.join(HERE, '*.json')))
 @pytest.mark.parametrize('path', FILES, ids=[os.path.basename(f) for f in FILES])
 def test_replay(path):
     rec = json.load(open(path))
-    mod = importlib.import_module('mcx.props.' + rec['property'].lower())
-    res = mod.evaluate(rec['case'])
+    # through the runner's own case wrapper (an exception inside the code under test is a CRASH:<type>@<function> signature)
+    from mcx import core
+    core._init_worker('mcx.props.' + rec['property'].lower())
+    res = core._run_one(rec['case'])
     sigs = [s for s, _ in res.get('viol', [])]
     if os.path.basename(path).startswith('known-'):
         assert rec['signature'] in sigs, 'known finding no longer reproduced: %s' % rec['signature']
